@@ -22,7 +22,8 @@ type c08Batch struct {
 	edge   bool
 	pts    func(marker float64) data.Points
 	name   string
-	churn  int // 1 = delete the grandchild GK (edge K1>GK), 2 = restore it
+	churn  int    // 1 = delete the grandchild GK (edge K1>GK), 2 = restore it
+	parent string // edge batches: the parent of the edge written ("" = the instance root)
 }
 
 func c08Alphabet() []c08Batch {
@@ -32,7 +33,7 @@ func c08Alphabet() []c08Batch {
 			o, tg := origin, target
 			out = append(out, c08Batch{o, tg, false, func(m float64) data.Points {
 				return data.Points{{Type: "value", Value: m, Origin: o}}
-			}, fmt.Sprintf("value on %s by %q", tg, o), 0})
+			}, fmt.Sprintf("value on %s by %q", tg, o), 0, ""})
 		}
 	}
 	// two-point batches and other fields, by a foreign author and by the client itself
@@ -40,14 +41,21 @@ func c08Alphabet() []c08Batch {
 		o := origin
 		out = append(out, c08Batch{o, "N1", false, func(m float64) data.Points {
 			return data.Points{{Type: "description", Text: fmt.Sprintf("d%v", m), Origin: o}, {Type: "arr", Key: "1", Value: m, Origin: o}}
-		}, fmt.Sprintf("description+arr[1] on N1 by %q", o), 0})
+		}, fmt.Sprintf("description+arr[1] on N1 by %q", o), 0, ""})
 		out = append(out, c08Batch{o, "K1", false, func(m float64) data.Points {
 			return data.Points{{Type: "description", Text: fmt.Sprintf("k%v", m), Origin: o}, {Type: "value", Value: m, Origin: o}}
-		}, fmt.Sprintf("description+value on K1 by %q", o), 0})
+		}, fmt.Sprintf("description+value on K1 by %q", o), 0, ""})
 	}
 	out = append(out, c08Batch{"other", "N1", true, func(m float64) data.Points {
 		return data.Points{{Type: "role", Text: fmt.Sprintf("r%v", m), Origin: "other"}}
-	}, `edge point role on N1 by "other"`, 0})
+	}, `edge point role on N1 by "other"`, 0, ""})
+	// an edge point (not a tombstone) on the edge between the client's node and its child, and one level further down
+	out = append(out, c08Batch{origin: "other", target: "K1", edge: true, parent: "N1", pts: func(m float64) data.Points {
+		return data.Points{{Type: "role", Text: fmt.Sprintf("r%v", m), Origin: "other"}}
+	}, name: `edge point role on N1>K1 by "other"`})
+	out = append(out, c08Batch{origin: "other", target: "GK", edge: true, parent: "K1", pts: func(m float64) data.Points {
+		return data.Points{{Type: "role", Text: fmt.Sprintf("r%v", m), Origin: "other"}}
+	}, name: `edge point role on K1>GK by "other"`})
 	return out
 }
 
@@ -169,7 +177,11 @@ func c08Body(t *testing.T, depth int, order bool, churn ...bool) mc.Body {
 						return client.SendEdgePoints(g.inst.Nc, "GK", "K1", pts, true)
 					}
 					if b.edge {
-						return client.SendEdgePoints(g.inst.Nc, b.target, root, pts, true)
+						par := root
+						if b.parent != "" {
+							par = b.parent
+						}
+						return client.SendEdgePoints(g.inst.Nc, b.target, par, pts, true)
 					}
 					return client.SendNodePoints(g.inst.Nc, b.target, pts, true)
 				}, early)
@@ -292,7 +304,11 @@ func c08Body(t *testing.T, depth int, order bool, churn ...bool) mc.Body {
 					case b.mustNotTell() && b.target == "N1":
 						_ = data.MergePoints("N1", b.pts(m), &cfg) // its own writes: it knows them
 					case told[m] > 0 && b.edge:
-						_ = data.MergeEdgePoints(b.target, root, b.pts(m), &cfg)
+						par := root
+						if b.parent != "" {
+							par = b.parent
+						}
+						_ = data.MergeEdgePoints(b.target, par, b.pts(m), &cfg)
 					case told[m] > 0:
 						_ = data.MergePoints(b.target, b.pts(m), &cfg)
 					}
@@ -337,7 +353,7 @@ func TestC08(t *testing.T) {
 			depth = 3
 		}
 		r.Explore(mc.Config{Name: fmt.Sprintf("batch-sequences-d%d", depth), Serial: true, SplitDepth: 1, SelfCheckEvery: 53,
-			Rule: fmt.Sprintf("all sequences of %d batches over a 27-batch alphabet: author in {\"\", the client's id, a child's id, a sibling client's id, another party} x target in {client node, child, grand-child, unrelated sibling}, one- and two-point batches, an edge-point batch; each batch carries one origin and a unique marker; Points/EdgePoints callbacks of the instrumented client compared with the accepted history (told exactly once and in order for foreign changes in the subtree, never for its own), and the folded configuration compared with Decode of the store's node", depth)},
+			Rule: fmt.Sprintf("all sequences of %d batches over a 29-batch alphabet: author in {\"\", the client's id, a child's id, a sibling client's id, another party} x target in {client node, child, grand-child, unrelated sibling}, one- and two-point batches, edge-point batches on the client node's own edge, on the edge to its child and on the edge to its grand-child; each batch carries one origin and a unique marker; Points/EdgePoints callbacks of the instrumented client compared with the accepted history (told exactly once and in order for foreign changes in the subtree, never for its own), and the folded configuration compared with Decode of the store's node", depth)},
 			c08Body(t, depth, false))
 		r.Explore(mc.Config{Name: "delivery-order-d2", Serial: true, SplitDepth: 1, DevBound: 1,
 			Rule: "the same alphabet, sequences of 2 batches, with one scheduling deviation (another pending delivery first, or the second batch written before the system is quiescent)"},
